@@ -42,6 +42,7 @@ def evaluate(mod, case):
     from .result import Result
     common.LAYOUT = case.get('_layout', 'C') if isinstance(case, dict) else 'C'
     common.CTOR = case.get('_ctor', 'faces') if isinstance(case, dict) else 'faces'
+    common.FVCTOR = case.get('_fvctor', 'ctor') if isinstance(case, dict) else 'ctor'
     common.DTYPE = 'float' if getattr(mod, 'NO_INT_DTYPE', False) else \
         (os.environ.get('PBT_FORCE_DTYPE') or (case.get('_dtype', 'float') if isinstance(case, dict) else 'float'))
     try:
@@ -153,9 +154,9 @@ class Stats:
 def with_layout(strat):
     """every generated case additionally draws the memory layout of the arrays handed to pyfvtool"""
     from hypothesis import strategies as st
-    return st.builds(lambda c, l, k, t: dict(c, _layout=l, _ctor=k, _dtype=t) if isinstance(c, dict) else c, strat,
+    return st.builds(lambda c, l, k, t, f: dict(c, _layout=l, _ctor=k, _dtype=t, _fvctor=f) if isinstance(c, dict) else c, strat,
                      st.sampled_from(['C', 'C', 'F', 'strided']), st.sampled_from(['faces', 'NL']),
-                     st.sampled_from(['float', 'float', 'float', 'int']))
+                     st.sampled_from(['float', 'float', 'float', 'int']), st.sampled_from(['ctor', 'ctor', 'labels']))
 
 
 def _shard_generate(args):
